@@ -165,13 +165,28 @@ let handle (line : string) : string =
       let pos = ref 4 in
       let v = parse_val t toks pos in
       if !pos <> Array.length toks then raise (Bad "invalid_arg");
-      (match ser_spec t v (nat_of_int cap) with
+      let fill_bits () =
+        let fill = toks.(3) in
+        let byte i =
+          if fill = "z" then 0 else if fill = "f" then 255
+          else begin
+            let seed = Int64.of_string (String.sub fill 1 (String.length fill - 1)) in
+            let x = Int64.add (Int64.mul 1103515245L (Int64.add seed (Int64.of_int i))) 12345L in
+            Int64.to_int (Int64.logand (Int64.shift_right_logical x 16) 255L)
+          end in
+        let out = ref [] in
+        for i = cap - 1 downto 0 do
+          let b = byte i in
+          for k = 7 downto 0 do out := ((b lsr k) land 1 = 1) :: !out done
+        done;
+        !out in
+      (match (if toks.(0) = "wser" then walk_ser_obs t v (fill_bits ()) (nat_of_int cap) else ser_spec t v (nat_of_int cap)) with
        | Err e -> "err " ^ err_name e
        | Ok bits -> let (h, n) = hex_of_bits bits in Printf.sprintf "ok %d %s" n h)
     | "des" | "wdes" | "qdes" ->
       let t = find_type toks.(1) in
       let bits = bits_of_hex toks.(3) in
-      (match (if toks.(0) = "qdes" then des_spec_pa t bits else des_spec t bits) with
+      (match (if toks.(0) = "qdes" then des_spec_pa t bits else if toks.(0) = "wdes" then walk_des_bits t bits else des_spec t bits) with
        | Err e -> "err " ^ err_name e
        | Ok (v, consumed) ->
          let buf = Buffer.create 64 in
